@@ -25,7 +25,9 @@ pub struct Link {
     #[serde(rename = "_type")]
     typ: String,
     name: String,
+    #[serde(serialize_with = "crate::models::serialize_artifacts")]
     materials: BTreeMap<VirtualTargetPath, TargetDescription>,
+    #[serde(serialize_with = "crate::models::serialize_artifacts")]
     products: BTreeMap<VirtualTargetPath, TargetDescription>,
     #[serde(rename = "environment")]
     env: Option<BTreeMap<String, String>>,
